@@ -192,6 +192,68 @@ pub fn run(thorough: bool, seed: u64, _replay: Option<String>) -> Report {
                 }
             }
         }
+        // … and by the exclusion list, wherever the name stands in it: among other names before and behind it in the
+        // alphabet, in ascending, descending and mixed order – excluded means not reported, as main name or alternative;
+        // likewise a name that is one of several on the inclusion list is still probed
+        if let Some(input) = &text_in_enc {
+            let n: &str = n;
+            let mut input = input.clone();
+            if let Some(m) = mark_of(n) {
+                if n.starts_with("utf-16") {
+                    let mut b = m.to_vec();
+                    b.extend(enc_bytes(TEXTS[0].1, n).unwrap_or_default());
+                    input = b;
+                }
+            }
+            let others = ["ascii", "big5", "utf-8", "windows-1258", "ibm866", "koi8-u"];
+            let orders: Vec<Vec<&str>> = vec![
+                vec![n, others[0], others[1]],
+                vec![others[2], others[3], n],
+                vec![others[3], n, others[0]],
+                vec![others[2], others[0], n, others[1], others[5], others[4]],
+            ];
+            let alone = {
+                let mut s1 = Sett::default();
+                s1.incl = vec![n.to_string()];
+                s1.thr = 1.0;
+                s1.fb = false;
+                matches!(real_detect_raw(&input, &s1), Ok(Ok(ms)) if ms.iter().any(|m| m.encoding() == n))
+            };
+            for (k, order) in orders.iter().enumerate() {
+                let list: Vec<String> = order.iter().map(|x| x.to_string()).collect();
+                let mut se = Sett::default();
+                se.excl = list.clone();
+                se.thr = 1.0;
+                rep.count("oracle:name-inside-exclusion-list");
+                match real_detect_raw(&input, &se) {
+                    Err(p) => rep.fail("oracle", "C18:panic", &p, &input, Some(&se), n),
+                    Ok(Err(e)) => rep.fail("oracle", "C18:name-rejected-by-exclude-list", &e, &input, Some(&se), n),
+                    Ok(Ok(ms)) => {
+                        for m in ms.iter() {
+                            if m.encoding() == n || m.suitable_encodings().iter().any(|e| e == n) {
+                                rep.fail("oracle", "C18:excluded-name-still-reported", &format!("{} stands at position {} of the exclusion list {:?} and is reported: {} {:?}", n, order.iter().position(|x| *x == n).unwrap_or(0), list, m.encoding(), m.suitable_encodings()), &input, Some(&se), n);
+                                break;
+                            }
+                        }
+                    }
+                }
+                if alone && k % 2 == 1 {
+                    let mut si = Sett::default();
+                    si.incl = list.clone();
+                    si.thr = 1.0;
+                    si.fb = false;
+                    si.pre = false;
+                    if let Ok(Ok(ms)) = real_detect_raw(&input, &si) {
+                        let named = ms.iter().any(|m| m.encoding() == n || m.suitable_encodings().iter().any(|e| e == n));
+                        // another listed name may legitimately end the search early (ascii / utf-8 qualify) – then nothing is claimed
+                        let early = ms.len() == 1 && ms.iter().any(|m| m.encoding() == "ascii" || m.encoding() == "utf-8");
+                        if !named && !early && !list.iter().any(|o| o != n && charset_normalizer_rs::verif_hooks::is_cp_similar(n, o)) {
+                            rep.fail("oracle", "C18:included-name-not-probed", &format!("{} is accepted when listed alone but missing when listed as {:?}", n, list), &input, Some(&si), n);
+                        }
+                    }
+                }
+            }
+        }
         // alias list of the name itself (through a constructed match) and alias safety
         let m = vh::new_match(b"x".to_vec(), n, 0.0, false, &[], Some("x"));
         match catch_unwind(AssertUnwindSafe(|| m.encoding_aliases())) {
